@@ -122,9 +122,17 @@ class Edits:
         self.e = []
 
     def add(self, start, end, text, rule, note):
-        for (s, t, _, _, _) in self.e:
-            if not (end <= s or start >= t):
+        keep = []
+        for (s, t, tx, r, n) in self.e:
+            if end <= s or start >= t:
+                keep.append((s, t, tx, r, n))
+            elif start <= s and t <= end:
+                continue            # an elided region swallows the rewrites inside it
+            elif s <= start and end <= t:
+                return              # already inside an elided region
+            else:
                 raise ExtractError(f"overlapping rewrites at {start}-{end} ({rule})")
+        self.e = keep
         self.e.append((start, end, text, rule, note))
 
     def apply(self, src, lo, hi):
@@ -388,6 +396,21 @@ def rewrite_body(S, b0, b1, opts, log):
         n_lines = line_of(src, toks[z].start) - ln
         ed.add(toks[k].start, toks[z].start, repl + "\n", "R11",
                f"{S.rel}:{ln} {n_lines} lines from `{anchor}` to the end of the block replaced by `{repl}` (over-approximation: no claim about this path)")
+    # ------------- R11: a block statement (`if .. { .. }`) replaced by a call to a stub ---------
+    for anchor, repl in opts.get("elide_block", []):
+        atoks = [t.text for t in lex(anchor)]
+        hits = [k for k in range(b0, b1 - len(atoks)) if [t.text for t in toks[k:k + len(atoks)]] == atoks]
+        if len(hits) != 1:
+            raise ExtractError(f"lost anchor: elide_block `{anchor}` matches {len(hits)} times")
+        k = hits[0]
+        z = k + len(atoks)
+        while z <= b1 and toks[z].text != "{":
+            z += 1
+        c = match_close(toks, z)
+        ln = line_of(src, toks[k].start)
+        n_lines = line_of(src, toks[c].start) - ln + 1
+        ed.add(toks[k].start, toks[c].end, repl, "R11",
+               f"{S.rel}:{ln} block statement `{anchor} {{..}}` ({n_lines} lines) replaced by `{repl}` (over-approximation)")
     # ------------- R11: one statement replaced by a call to a contracted stub ------------------
     for anchor, repl in opts.get("replace_stmt", []):
         atoks = [t.text for t in lex(anchor)]
@@ -815,6 +838,11 @@ def parse_template(path):
                 if not m:
                     raise ExtractError(f"{path}:{i+1}: bad elide_rest")
                 cur.setdefault("elide", []).append((int(m.group(1)), m.group(2), m.group(3)))
+            elif cmd.startswith("elide_block "):
+                m = re.match(r"elide_block\s+<<(.*?)>>\s*==>\s*<<(.*)>>\s*$", cmd)
+                if not m:
+                    raise ExtractError(f"{path}:{i+1}: bad elide_block")
+                cur.setdefault("elide_block", []).append((m.group(1), m.group(2)))
             elif cmd.startswith("replace_stmt "):
                 m = re.match(r"replace_stmt\s+<<(.*?)>>\s*==>\s*<<(.*)>>\s*$", cmd)
                 if not m:
